@@ -401,7 +401,7 @@ def gen_cases(run, rng):
     """-> list of dict(kind, ...inputs...)"""
     quick = run.tier == "quick"
     cases = []
-    la, lb = (4, 4) if quick else (6, 5)
+    la, lb = (5, 4) if quick else (6, 5)
     al = "ab "
     strs = ["".join(p) for k in range(la + 1) for p in itertools.product(al, repeat=k)]
     for a in strs:
@@ -660,7 +660,7 @@ def main(run):
                 "random segment lists (with empty segments and adjacent equalities) for diff_cleanupSemantic and diff_cleanupMerge; "
                 "placeholder texts (balanced, mutated, unbalanced, arbitrary) through a real PlaceholderMaker for the re-balancing step; "
                 "additionally the open hypothesis bisect_safe of C16_no_error_partial is tested on the model (all admissible pairs over {a,b} of lengths 2..%d, seeded longer ones under scripted clocks). "
-                "non-trivial = both strings non-empty and different / segment list non-empty" % ((4, 4, nexh, 6) if run.tier == "quick" else (6, 5, nexh, 8)),
+                "non-trivial = both strings non-empty and different / segment list non-empty" % ((5, 4, nexh, 6) if run.tier == "quick" else (6, 5, nexh, 8)),
         "exhaustive_small_scope": nexh,
         "input_distribution": {"group->count": groups, "len(a)+len(b)->count (full cases)": lens,
                                "clock tests answered (total)": sum(c.get("ticks", 0) for c in full),
